@@ -30,7 +30,7 @@ def parallel_map(fn, items):
     return _parallel_map(fn, items, workers=w or None)
 
 DRIVERS = ["drv_opts"]
-GENERATED = ["OptionsTables"]
+GENERATED = ["OptionsTables", "GitParams"]
 
 # ------------------------------------------------------------------ probe options
 # kind: how show-config renders the value. Only options that `set_options!` assigns through
